@@ -55,6 +55,9 @@ Cases(zzdummy) ==
      \o [x \in DOMAIN NearVals |-> [e |-> "cmp", text |-> SameText, doc |-> MkObj(<<JMem(<<97>>, NearVals[x])>>)]]
      \o [x \in DOMAIN pairs |-> [e |-> "cmp", text |-> SixOf(<<97>>, <<98>>), doctext |-> DocText(Pool[pairs[x][1]], Pool[pairs[x][2]])]]
      \o [x \in DOMAIN pairs |-> [e |-> "cmp", text |-> SixOf(Tick(Pool[pairs[x][1]]), Tick(Pool[pairs[x][2]])), doctext |-> <<48>>]]   \* any non-null document
+     \* mixed forms: a literal on one side, a field on the other (each operand order)
+     \o [x \in DOMAIN pairs |-> [e |-> "cmp", text |-> SixOf(Tick(Pool[pairs[x][1]]), <<98>>), doctext |-> DocText(Pool[pairs[x][1]], Pool[pairs[x][2]])]]
+     \o [x \in DOMAIN pairs |-> [e |-> "cmp", text |-> SixOf(<<97>>, Tick(Pool[pairs[x][2]])), doctext |-> DocText(Pool[pairs[x][1]], Pool[pairs[x][2]])]]
 
 ASSUME ndJsonSerialize(IOEnv.OUT, Cases(0))
 =============================================================================
